@@ -5,7 +5,7 @@ from . import core
 from .core import Stats
 
 PROP = "C15"
-RUNS = {"quick": 12000, "thorough": 300000}
+RUNS = {"quick": 12000, "thorough": 160000}
 
 
 def check(tier, vseed, args):
